@@ -16,9 +16,17 @@ func dirListing(dir string) string {
 	parts := []string{}
 	for _, e := range entries {
 		n := e.Name()
-		kind := "O"
+		data, _ := os.ReadFile(filepath.Join(dir, n))
+		kind := "O9"
+		switch {
+		case string(data) == "text":
+			kind = "O0"
+		case strings.Contains(string(data), "function arrange"):
+			kind = "O1"
+		case string(data) == "; default driver\n":
+			kind = "O2"
+		}
 		if strings.HasSuffix(n, ".json") {
-			data, _ := os.ReadFile(filepath.Join(dir, n))
 			tc := &verifier.TestCase{}
 			if err := json.Unmarshal(data, tc); err != nil {
 				kind = "B"
